@@ -104,6 +104,9 @@ def do_verify_attestation(options):
         raise AdminError(
             f"Invalid UI attestation message header: {ui_message.hex()}")
     mh_len = len(mh_match.group(0))
+    if len(ui_message) != (mh_len + UD_VALUE_LENGTH + PUBKEY_COMPRESSED_LENGTH +
+                           SIGNER_HASH_LENGTH + SIGNER_ITERATION_LENGTH):
+        raise AdminError(f"UI attestation message length mismatch: {ui_message.hex()}")
 
     # Extract UI version, UD value, UI public key and signer version from message
     ui_version = mh_match.group(1)
